@@ -115,17 +115,28 @@ impl RecL {
         C: Collect + for<'a> LookupSpan<'a>,
     {
         let cur = ctx.lookup_current().map(|s| canon(&self.log, &s.id()));
-        let (scope, par): (Vec<u64>, Option<u64>) = if let Some(ev) = ev {
-            let sc = ctx.event_scope(ev).map(|s| s.map(|r| canon(&self.log, &r.id())).collect()).unwrap_or_default();
-            let par = ctx.event_span(ev).and_then(|s| s.parent()).map(|p| canon(&self.log, &p.id()));
-            (sc, par)
+        // the scope of the event / of the span this callback is about; from every span the scope yields we also
+        // navigate on: its .parent() and its own .scope()
+        let mut scope: Vec<u64> = Vec::new();
+        let mut nav: Vec<Value> = Vec::new();
+        let par: Option<u64>;
+        let sc = if let Some(ev) = ev {
+            par = ctx.event_span(ev).and_then(|s| s.parent()).map(|p| canon(&self.log, &p.id()));
+            ctx.event_scope(ev)
         } else {
             let id = span.unwrap();
-            let sc = ctx.span_scope(id).map(|s| s.map(|r| canon(&self.log, &r.id())).collect()).unwrap_or_default();
-            let par = ctx.span(id).and_then(|s| s.parent()).map(|p| canon(&self.log, &p.id()));
-            (sc, par)
+            par = ctx.span(id).and_then(|s| s.parent()).map(|p| canon(&self.log, &p.id()));
+            ctx.span_scope(id)
         };
-        push(&self.log, json!({"d": self.name, "w": w, "x": x, "cur": cur, "scope": scope, "par": par}));
+        if let Some(sc) = sc {
+            for r in sc {
+                scope.push(canon(&self.log, &r.id()));
+                let p = r.parent().map(|p| canon(&self.log, &p.id()));
+                let s2: Vec<u64> = r.scope().map(|x| canon(&self.log, &x.id())).collect();
+                nav.push(json!([p, s2]));
+            }
+        }
+        push(&self.log, json!({"d": self.name, "w": w, "x": x, "cur": cur, "scope": scope, "par": par, "nav": nav}));
     }
 }
 impl<C> Subscribe<C> for RecL
